@@ -2,16 +2,30 @@ CFG = {'assumptions': ['8*len(key) < 2^31 and len(keys) < 2^31 (Go int/int32 len
                  'outside every statement)',
                  'every byte is in [0,256) (keys_ok)',
                  'CountPrefixes: keys strictly ascending in Go string order, 0 <= s, s+2 <= e <= len(keys), m >= 1',
-                 'FirstDiffBits: keys non-empty (any order, repeats allowed)'],
+                 'FirstDiffBits: keys non-empty (any order, repeats allowed)',
+                 'CountPrefixes/single (widening): keys non-empty in any order, 0 <= s < len(keys), m >= 1',
+                 'SigBits/queries: every query in the CountPrefixes domain; the held differences are read by reflection '
+                 '(read-only) and compared with FirstDiffBits(keys); a missing field counts as unchanged'],
  'files': ['sigbits/firstdiff.go', 'sigbits/countprefixes.go', 'sigbits/sigbits_countprefixes.go', 'sigbits/sigbits.go'],
  'go': {'sigbits.FirstDiffBits': 'sigbits.FirstDiffBits',
-        'sigbits.CountPrefixes': 'sigbits.New(keys).CountPrefixes'},
+        'sigbits.CountPrefixes': 'sigbits.New(keys).CountPrefixes',
+        'sigbits.CountPrefixes/single': 'sigbits.New(keys).CountPrefixes(s, s+1, m) (a range of one key)',
+        'sigbits.CountPrefixes/counter': 'sigbits.New(prefix + big-endian counter keys).CountPrefixes',
+        'sigbits.CountPrefixes/counter-big': 'sigbits.New(prefix + big-endian counter keys).CountPrefixes (linear oracle)',
+        'sigbits.SigBits/queries': 'sb := sigbits.New(keys); a sequence of sb.CountPrefixes queries on that one object'},
  'rule': 'cases = exhaustive sweeps (all ordered pairs of strings of length 0..2 over {00,01,80,ff,a}; shared prefixes of '
          '0/1/7/8/9/15/16/17/23/24/25 bytes x all pairs of 9 short tails; a flip of every bit of a 20-byte key; key vs key + 0..10 '
-         'NUL bytes; CountPrefixes on every 2..4-key subset of a 7-string universe x all sub-ranges x m in {1,2,8,9,40}) + '
+         'NUL bytes; CountPrefixes on every 2..4-key subset of a 7-string universe x all sub-ranges x m in {1,2,8,9,40}; '
+         'single-key ranges on every 1..3-key subset; 5-key sets sharing 4100 (thorough: also 4096 and 20001) bytes; '
+         'every ordered pair of queries (incl. the same twice) on ONE SigBits object over every 2..3-key subset of a '
+         '6-string universe; key sets of 300..4096 (thorough: up to 140000) keys = prefix + big-endian counter, so that '
+         'more than 2^8 (2^16) adjacent pairs share one first-difference bit) + random query sequences of 2..7 queries '
+         'on one object (repeated, same range with another m, overlapping, whole range) + '
          'structured random strictly ascending key sets (flat / extension chain / differing in byte 0 / trie-shaped, over '
          '{a,b}, {00,01,a}, {00,80,ff}, full bytes, shared prefixes crossing the 8-byte chunks, empty key, key + NULs), '
          'FirstDiffBits also on shuffled copies with a repeated key; a FirstDiffBits case is non-trivial when it has >= 2 keys '
          '(key = set of pair kinds: differing / prefix with the difference clipped / prefix hidden by zero padding / prefix '
          'ending on a chunk edge / equal, with the chunk index); a CountPrefixes case when m >= 2 and e-s >= 3 '
-         '(key = range size, s>0, e<len, m bucket, pair kinds in range)'}
+         '(key = range size, s>0, e<len, m bucket, pair kinds in range); a single-key-range case when m >= 2 and the '
+         'set has >= 2 keys (key = s>0, e<len, m bucket); a query sequence when it has >= 2 queries (key = number of '
+         'queries, repeated range, overlapping ranges, key-set size); every counter-key case (key = size, s>0, m)'}
